@@ -166,17 +166,20 @@ def gen_model(rng, stream="main", size=None):
     r = rng
     # ---- parameters, constants, inputs -------------------------------------------------------
     npar = r.randint(1, 3)
+    no_params = (stream in ("main", "nonlinear") and r.random() < 0.2) or (stream == "affineconst" and r.random() < 0.5)
+    if no_params:
+        npar = 0
     for i in range(npar):
         v = b.dyadic() if r.random() < 0.3 else b.small(nz=True)
         b.declare("p%d" % i, "parameter Real p%d = %s;" % (i, lit(v)), v, given=True)
         b.pnames.append("p%d" % i)
-    if r.random() < 0.35:
+    if not no_params and r.random() < 0.35:
         # a parameter without value (NaN): never replaced by any pass, stays an input of the functions
         v = b.small(nz=True)
         b.declare("pf", "parameter Real pf;", v, given=True)
         b.pnames.append("pf")
     # parameter expressions (chains allowed: q1 may use q0)
-    for i in range(r.randint(0, 2)):
+    for i in range(0 if no_params else r.randint(0, 2)):
         src = r.choice(b.pnames)
         a, k = b.small(nz=True, lo=-2, hi=3), b.small(lo=-2, hi=2)
         txt = r.choice(["%s*%s + %s" % (lit(a) if a > 0 else par(lit(a)), src, lit(k) if k >= 0 else par(lit(k))),
@@ -199,6 +202,8 @@ def gen_model(rng, stream="main", size=None):
         b.unames.append("u%d" % i)
     # ---- states --------------------------------------------------------------------------------
     nst = r.choice([0, 0, 1, 1, 2])
+    if stream == "affineconst":
+        nst = 0                       # no initial equations: the affine collapse of the dae equations is what is looked at
     if stream == "affineinit":
         nst = r.choice([1, 2])
     for i in range(nst):
@@ -210,13 +215,13 @@ def gen_model(rng, stream="main", size=None):
     n = size if size is not None else r.randint(3, 7)
     kinds_first = ["const", "paramexpr", "affine"]
     kinds_all = ["const", "const", "alias", "alias", "negalias", "negalias", "affine", "affine", "paramexpr",
-                 "scaled", "pscaled", "rscaled", "block", "elim", "elim", "elimchain", "aliaschain", "aliaschain", "zero", "negform", "paramalias", "inputalias"]
+                 "scaled", "pscaled", "pscaled", "rscaled", "block", "elim", "elim", "elimchain", "aliaschain", "aliaschain", "zero", "negform", "paramalias", "inputalias"]
     if stream == "nonlinear":
         kinds_all = kinds_all + ["nonlin", "nonlin", "nonlin", "ifelim", "ifelim"]
     if stream in ("contradiction", "iter"):
         kinds_all = [k for k in kinds_all if k not in ("elim", "elimchain")]
     if stream == "aliaschain":
-        kinds_all = ["aliaschain"] * 5 + ["const", "affine", "alias", "negalias"]
+        kinds_all = ["aliaschain"] * 5 + ["const", "affine", "alias", "negalias", "pscaled", "pscaled", "pscaled"]
     i = 0
     while i < n:
         pool = b.unknowns + b.states + b.unames
@@ -261,6 +266,8 @@ def gen_model(rng, stream="main", size=None):
             rhs, val = _affine_rhs(b)
             eq = r.choice(["%s = %s" % (v, rhs), "%s = %s" % (rhs, v)])
         elif kind == "paramexpr":
+            if not b.pnames:
+                continue
             p = r.choice(b.pnames)
             c = r.choice(b.cnames)
             val = 2 * b.sol[p] + b.sol[c]
@@ -278,11 +285,15 @@ def gen_model(rng, stream="main", size=None):
             w = b.ref()
             if w is None:
                 continue
+            if not [q for q in b.pnames if b.sol[q] != 0]:
+                continue
             p = r.choice([q for q in b.pnames if b.sol[q] != 0])     # a zero factor would make the system singular
             s = r.choice([1, -1])
             val = s * b.sol[w]
-            eq = r.choice(["%s*(%s %s %s) = 0" % (p, v, "-" if s > 0 else "+", w),
-                           "%s*(%s %s %s) = 0" % (r.choice(["2", "3", "(-2)"]), v, "-" if s > 0 else "+", w)])
+            sg = "-" if s > 0 else "+"
+            eq = r.choice(["%s*(%s %s %s) = 0" % (p, v, sg, w), "%s*(%s %s %s) = 0" % (p, w, sg, v),
+                           "%s*%s %s %s*%s = 0" % (v, p, sg, w, p), "(%s %s %s)*%s = 0" % (v, sg, w, p),
+                           "%s*(%s %s %s) = 0" % (r.choice(["2", "3", "(-2)"]), v, sg, w)])
         elif kind == "negform":
             w = b.ref()
             if w is None:
@@ -309,6 +320,8 @@ def gen_model(rng, stream="main", size=None):
             k = b.small(lo=-2, hi=2)
             val = b.sol[w] + k
             inner = "%s - %s - %s" % (v, w, lit(k) if k >= 0 else par(lit(k)))
+            if not [q for q in b.pnames if b.sol[q] != 0]:
+                continue
             pz = r.choice([q for q in b.pnames if b.sol[q] != 0])
             eq = r.choice(["(%s) * %s = 0" % (inner, pz), "(%s) * (2 + %s*%s) = 0" % (inner, pz, pz),
                            "(%s) * (%s + %s) = 0" % (inner, pz, lit(abs(b.sol[pz]) + 1))])
@@ -521,6 +534,15 @@ def gen_model(rng, stream="main", size=None):
             b.unknowns.append(d)
             b.eqs += ["%s = %s" % (a, c), "%s = %s" % (c, d), r.choice(["%s = -%s" % (d, a), "%s + %s = 0" % (a, d)])]
         b.kinds.append("contradiction")
+    if stream == "affineconst":
+        # equations that still depend on a constant when the affine form is built
+        w = b.ref()
+        c = r.choice(b.cnames)
+        wv = b.sol[w] if w else Fraction(0)
+        b.declare("kk", "Real kk;", 2 * b.sol[c] + wv)
+        b.unknowns.append("kk")
+        b.eqs.append("kk = 2*%s + %s" % (c, w) if w else "kk = 2*%s" % c)
+        b.kinds.append("affine")
     if stream == "iterparam":
         # an algebraic variable aliased to a parameter *expression* (finding C15-F8 under iteration)
         if "q0" not in b.sol:
@@ -641,6 +663,13 @@ def gen_options(rng, case):
         o["replace_parameter_values"] = rng.random() < 0.7
         for k in ("detect_aliases", "eliminate_constant_assignments", "replace_constant_values"):
             o[k] = rng.random() < 0.75
+    elif stream == "affineconst":
+        o["reduce_affine_expression"] = True
+        o["replace_constant_values"] = False
+        o["replace_parameter_values"] = rng.random() < 0.8
+        o["replace_parameter_expressions"] = rng.random() < 0.8
+        o["expand_vectors"] = False
+        o.pop("eliminable_variable_expression", None)
     elif stream == "affineinit":
         o["reduce_affine_expression"] = True
     elif stream == "iterparam":
@@ -1152,7 +1181,7 @@ def plan(tier, prop):
     (former and open) findings come first so that the time budget never cuts them off."""
     q = tier == "quick"
     p = [("contradiction", 3 if q else 40, 2), ("iter", 3 if q else 40, 2), ("delay", 5 if q else 60, 3),
-         ("aliaschain", 8 if q else 150, 3)]
+         ("aliaschain", 8 if q else 150, 3), ("affineconst", 5 if q else 60, 2)]
     if prop == "C15":
         p += [("constexpr", 2 if q else 30, 2), ("timealias", 2 if q else 20, 2),
               ("affineinit", 2 if q else 30, 2), ("iteraffine", 2 if q else 30, 2), ("iterparam", 2 if q else 30, 2)]
